@@ -196,3 +196,18 @@ def run(repo: Repo, rep: Report, tier: str) -> None:
     _borrow6(repo, rep, "C12", "C12-R1", "C06-R10", "the network an entity's condition is evaluated on carries one producer per signal: relay poles are shared only inside one (source, colour) network", floor=3)
     _borrow6(repo, rep, "C10", "C10-R1", "C06-R11", "the source of an inlined any()/all() condition and of a property value follows its producer through the optimizer passes",
              select=lambda o: "IREntityPropWrite" in o.construct, floor=2)
+
+    # ---------------- R12 --------------------------------------------------------------
+    rep.rule("C06-R12", "the condition reaches every entity that can take one: in each enable branch of _apply_property_writes a set_circuit_condition call is reachable for entities "
+             "without a `circuit_enabled` flag too (pumps, power switches, ... offer the condition but not the flag; raw control_behavior entries are dropped on export)")
+    from ..gamedata import draftsman_classes_with_condition_but_no_enable_flag as _noflag
+    affected = _noflag()
+    rep.analysed["C06-R12:draftsman classes with a circuit condition but no enable flag"] = affected
+    for label, br in (("plain signal", sb), ("inlined comparison", ib), ("inlined any()/all()", bb)):
+        if br is None:
+            raise AnalysisError(f"C06-R12: branch `{label}` not found")
+        calls12 = [c for s_ in br.body for c in ast.walk(s_) if isinstance(c, ast.Call) and call_name(c) == "set_circuit_condition"]
+        free = [c for c in calls12 if not any(pol and g == "hasattr(entity, 'circuit_enabled')" for g, pol in cguards(ap, c))]
+        rep.check(bool(free) or not affected, "C06-R12", f"{label}: the condition is set on entities without an enable flag as well",
+                  f"{len(free)} of {len(calls12)} set_circuit_condition call(s) do not require circuit_enabled" if free else
+                  f"every set_circuit_condition call requires `circuit_enabled`; {', '.join(affected[:6])} have none, so `{affected[0].lower() if affected else 'pump'}.enable = ...` is emitted without any condition", ap.loc(br))
